@@ -14,7 +14,7 @@ RULE = ("history = schema with int/float/string/datetime/nullable sort fields x 
 
 def make_history(rng):
     fields = [Field("k", "int"), Field("a", "int"), Field("f", "float"), Field("s", "string"), Field("t", "datetime"),
-              Field("o", "int", optional=True), Field("u", "u64")]
+              Field("o", "int", optional=True), Field("u", "u64"), Field("n", "int")]
     schema = Schema("ev", fields)
     ctxs = [f"c{j}" for j in range(rng.randint(2, 6))]
     n = rng.randint(15, 40)
@@ -22,7 +22,9 @@ def make_history(rng):
     for i in range(n):
         p = {"k": i, "a": rng.choice([-3, 0, 1, 1, 2, 7, 7, 100, -100]), "f": rng.choice([-1.5, 0.0, 0.25, 2.0, 2.5, 10.0, 1e6]),
              "s": rng.choice(["a", "b", "B", "ab", "abc", "", "z"]), "t": 1700000000 + rng.choice([0, 1, 60, 3600, 86400, 86400 * 30]),
-             "u": rng.choice([0, 1, 2, 2 ** 40])}
+             "u": rng.choice([0, 1, 2, 2 ** 40]),
+             # keys above 2^53 that differ by less than the f64 spacing (nanosecond epochs): typed integer order must be exact
+             "n": 1700000000000000000 + rng.choice([0, 1, 2, 3, 5, 7, 100, 1000, -1, -2])}
         r = rng.random()
         if r < 0.2:
             p["o"] = None
@@ -39,7 +41,7 @@ def gen_query(rng, ctxs, nrows):
     q = {"order": None, "desc": False, "limit": None, "offset": None, "where": None, "for": None}
     r = rng.random()
     if r < 0.8:
-        q["order"] = rng.choice(["a", "f", "s", "t", "o", "u", "k", "timestamp"])
+        q["order"] = rng.choice(["a", "f", "s", "t", "o", "u", "k", "timestamp", "n", "n"])
         q["desc"] = rng.random() < 0.5
     sizes = [0, 1, 2, max(0, nrows - 1), nrows, nrows + 3, 1000]
     if rng.random() < 0.8:
@@ -59,7 +61,7 @@ def render(q, bare=False):
     s = "QUERY ev"
     if q["for"]:
         s += f" FOR {q['for']}"
-    s += " RETURN [k, a, f, s, t, o, u]"
+    s += " RETURN [k, a, f, s, t, o, u, n]"
     if q["where"]:
         s += f" WHERE {q['where']}"
     if bare:
@@ -86,7 +88,8 @@ def size_class(v, n):
 
 
 def sort_kind(f):
-    return {"a": "int", "f": "float", "s": "string", "t": "datetime", "o": "int?", "u": "u64", "k": "int_unique", "timestamp": "core_ts"}.get(f, "none")
+    return {"a": "int", "f": "float", "s": "string", "t": "datetime", "o": "int?", "u": "u64", "k": "int_unique", "timestamp": "core_ts",
+            "n": "int_gt_2p53"}.get(f, "none")
 
 
 def history_task(task, wdir, res):
